@@ -41,6 +41,10 @@ def build_graph(case):
             if H.kind_of(o) in H.VERTEX_KINDS:
                 try:
                     helpers.neighbors(o, direction_sensitive=helpers.DIR_SENS_ANY, unknown_handling=helpers.LNK_UNKNOWN_NEIGHBOR)
+                    if case.get("warm") == "filtered":
+                        # memo entries keyed by a callable (picklable by reference) on every vertex
+                        helpers.neighbors(o, direction_sensitive=helpers.DIR_SENS_FORWARD, unknown_handling=helpers.LNK_UNKNOWN_NEIGHBOR,
+                                          filterfunc=PS.pfilter)
                 except Exception:  # noqa: BLE001
                     pass
     Vertex.NEIGHBOR_CACHING = bool(case.get("cache_dump"))
@@ -81,7 +85,7 @@ class RoundTrip(Leg):
     def generate(self, rng, n):
         for i in range(n):
             ops, u, vids = R.gen_render_graph(rng)
-            yield {"ops": ops, "u": u, "proto": rng.choice([0, 1, 2, 3, 4, 5, None]), "warm": rng.random() < 0.5,
+            yield {"ops": ops, "u": u, "proto": rng.choice([0, 1, 2, 3, 4, 5, None]), "warm": rng.choice([False, True, "filtered", "filtered"]),
                    "cache_dump": rng.random() < 0.5, "cache_load": rng.random() < 0.6, "big": rng.random() < 0.2,
                    "fresh": i % 4 == 0}
 
